@@ -19,7 +19,7 @@ var registryHosts = []string{"", "", "example.com", "terraform.example.com", "ãƒ
 var plainSegs = []string{"repo", "org", "my-repo", "mod_v2", "a.b", "x~y", "go-slug", "hashicorp", "v1", "1"}
 var oddSegs = []string{"with space", "Ã¼ni", "per%20cent", "plus+", "at@", "colon:", "semi;", "eq=", "amp&", "hash#", "q?", "%2F", "%2F%2F", "%2e%2e", "..", ".", "", "a//b", "star*", "quote\"", "back\\slash", "%", "%zz", "Â ", "tab\t"}
 var subSegs = []string{"modules", "vpc", "a", "b", "examples", "x.tf", "sub-dir", "v2", "m_1"}
-var oddSubSegs = []string{"..shared", "...", ".hidden", "..", "line\nbreak", "cr\rlf", "sub{xff}net", "with space", "Ã¼ni", "per%20cent", "plus+", "at@v1", "colon:", "hash#frag", "q?x", "%2F", "what%3F.md", "%3F", "%23frag", "%3f", "trail ", " lead", "..", ".", "", "@", "a@1.0.0", "star*", "semi;", "%", "~", "back\\slash"}
+var oddSubSegs = []string{strings.Repeat("long-segment-", 160), "..shared", "...", ".hidden", "..", "line\nbreak", "cr\rlf", "sub{xff}net", "with space", "Ã¼ni", "per%20cent", "plus+", "at@v1", "colon:", "hash#frag", "q?x", "%2F", "what%3F.md", "%3F", "%23frag", "%3f", "trail ", " lead", "..", ".", "", "@", "a@1.0.0", "star*", "semi;", "%", "~", "back\\slash"}
 var names = []string{"hashicorp", "subnets", "cidr", "aws", "my-ns", "mod_1", "A", "a1", "x-y_z"}
 var systems = []string{"aws", "azurerm", "cidr", "null", "a1", "k8s"}
 var versions = []string{"1.0.0", "0.1.2", "2.10.3", "1.0.0-beta1", "1.2.3+build5", "0.0.1", "10.20.30", "1.0.0-rc.1+meta"}
@@ -147,6 +147,10 @@ func Violation(t *rapid.T) (string, string) {
 		{"foreign-git-key-sshkey", "git::https://" + host + "/repo.git?sshkey=Zm9v"},
 		{"foreign-git-key-with-ref", "git::ssh://" + host + "/repo.git?ref=main&depth=1"},
 		{"checksum", "https://" + host + "/pkg.tgz" + sub + "?checksum=md5:abc"},
+		{"checksum-behind-empty-subpath", "https://" + host + "/pkg.tgz//?checksum=md5:abc"},
+		{"two-refs-behind-empty-subpath", "git::https://" + host + "/repo.git//?ref=a&ref=b"},
+		{"foreign-git-key-behind-empty-subpath", "git::https://" + host + "/repo.git//?sshkey=Zm9v"},
+		{"archive-zip-behind-empty-subpath", "https://" + host + "/download//?archive=zip"},
 		{"checksum-with-archive", "https://" + host + "/download?archive=tgz&checksum=sha256:abc"},
 		{"archive-zip", "https://" + host + "/download" + sub + "?archive=zip"},
 		{"two-archive", "https://" + host + "/download?archive=tgz&archive=tgz"},
